@@ -173,7 +173,7 @@ impl Ldap {
         !(r matches Err(LdapError::OpSend)) ==> sent(*final(self)).id == final(self).last_id, //# C01+C05.request_carries_the_id_just_reserved
         !(r matches Err(LdapError::OpSend)) ==> sent(*final(self)).op == op && sent(*final(self)).req == req, //# C02.request_is_the_one_built_by_the_caller
         !(r matches Err(LdapError::OpSend)) ==> sent(*final(self)).controls == old(self).controls, //# C02.request_carries_the_callers_controls
-        !(r matches Err(LdapError::OpSend)) ==> final(self).timeout is None, //# C02.timeout_consumed_by_this_operation
+        !(r matches Err(LdapError::OpSend)) ==> final(self).timeout is None, //# C02+C12.timeout_consumed_by_this_operation
         // the result is built from the reply received on this operation's own channel
         r matches Ok(t) ==> (reply_of(sent(*final(self)).reply) matches Ok(resp) && assembled(resp, t)), //# C01+C03.result_is_the_reply_on_own_channel
         // dropped reply sender (driver gone) => error, never data
@@ -203,7 +203,7 @@ impl Ldap {
 //@ ret r
 //@ spec
     ensures (*r).timeout == Some(duration), (*r).controls == old(self).controls, (*r).search_opts == old(self).search_opts,
-        (*r).tx == old(self).tx, (*r).last_id == old(self).last_id, //# C02.with_timeout_sets_exactly_that_field
+        (*r).tx == old(self).tx, (*r).last_id == old(self).last_id, //# C02+C12.with_timeout_sets_exactly_that_field
 //@end
 
 //@lift name=simple_bind file=src/ldap.rs impl="impl\s+Ldap\s*\{" fn=simple_bind
@@ -312,7 +312,7 @@ impl Clone for Ldap {
 //@ ret r
 //@ spec
     ensures r.tx == self.tx, r.id_scrub_tx == self.id_scrub_tx, r.msgmap == self.msgmap,
-        r.last_id == 0 && r.timeout is None && r.controls is None && r.search_opts is None, //# C02.cloned_handle_starts_without_modifiers
+        r.last_id == 0 && r.timeout is None && r.controls is None && r.search_opts is None, //# C02+C12.cloned_handle_starts_without_modifiers
 //@end
 }
 
